@@ -12,6 +12,7 @@ pub mod project;
 pub mod refdec;
 pub mod run;
 pub mod sio;
+pub mod sized;
 pub mod specpred;
 pub mod tape;
 pub mod walk;
